@@ -130,6 +130,24 @@ def check(run):
                 ops.append({"op": "sub", "c": c, "id": 2, "fs": [{"f": f, "q": (k + i) % 3} for f in subf[(k + i) % len(subf)]]})
         ops.append({"op": "quiesce"})
         bscns.append({"nodes": [1, 2], "ops": ops})
+    # a retained replay that is not acknowledged is sent again when its deadline passes: still flagged as retained, same topic
+    for q in (1, 2):
+        for n in (1, 2):
+            ops = [{"op": "connect", "c": 9, "n": 1, "client": "pub", "ka": 600},
+                   {"op": "connect", "c": 1, "n": 1, "client": "early", "ka": 600, "auto": "none"},
+                   {"op": "sub", "c": 1, "id": 1, "fs": [{"f": ["a", "#"], "q": q}]},
+                   {"op": "pub", "c": 9, "t": ["a", "b"], "p": "kept-q%d" % q, "q": 1, "r": True, "id": 20},
+                   {"op": "connect", "c": 5, "n": n, "client": "late", "ka": 600, "auto": "none"},
+                   {"op": "sub", "c": 5, "id": 2, "fs": [{"f": ["a", "+"], "q": q}]},
+                   {"op": "sweep", "n": n, "ms": 4500}, {"op": "sweep", "n": n, "ms": 9000},
+                   {"op": "sweep", "n": 1, "ms": 4500},
+                   {"op": "ackmsg", "c": 5, "p": "kept-q%d" % q, "kind": "PUBACK" if q == 1 else "PUBREC"},
+                   {"op": "ackmsg", "c": 1, "p": "kept-q%d" % q, "kind": "PUBACK" if q == 1 else "PUBREC"}]
+            if q == 2:
+                ops += [{"op": "sweep", "n": n, "ms": 4500}, {"op": "ackmsg", "c": 5, "p": "kept-q2", "kind": "PUBCOMP"},
+                        {"op": "ackmsg", "c": 1, "p": "kept-q2", "kind": "PUBCOMP"}]
+            ops.append({"op": "quiesce"})
+            bscns.append({"nodes": [1, 2], "ops": ops})
     btpath, crashes = brokerlib.execute(run, bscns, "c07b", shards=12)
     if crashes:
         raise vlib.Inconclusive("broker driver died: %s" % crashes[0][2][-2000:])
